@@ -271,7 +271,7 @@ def check_variant(ctx, tf, vname, raw_ts, ref, desc, eager0):
                     ctx.violation('raises/%s/index/%s%s' % (pre, util.exc_key(ex), kind), dict(info, exc=util.exc_detail(ex)))
             if is_lazy:
                 def chunks():
-                    parts, kept, run = [], [], 0
+                    parts, kept, kept_chunks, run = [], [], [], 0
                     for c in ch.data_chunks():
                         if c.offset != run:
                             raise AssertionError('chunk offset %d != running count %d' % (c.offset, run))
@@ -281,11 +281,17 @@ def check_variant(ctx, tf, vname, raw_ts, ref, desc, eager0):
                             d = np.asarray(d.as_datetime64('us')) if len(d) else np.zeros(0, dtype='M8[us]')
                         parts.append(C.image(d))
                         kept.append(d)
+                        kept_chunks.append(c)
                     # np.concatenate([c[:] for c in ch.data_chunks()]): arrays handed out earlier must still hold their values
                     ctx.count('chunk_arrays_rechecked', len(kept))
                     for k_, (d, im) in enumerate(zip(kept, parts)):
                         if not C.img_equal(C.image(d), im):
                             raise AssertionError('array of chunk %d changed while later chunks were read' % k_)
+                    # ... and a chunk object asked again gives the same values, without disturbing what it handed out before
+                    if not raw_ts:
+                        for k_, (c_, d, im) in enumerate(zip(kept_chunks, kept, parts)):
+                            if not C.img_equal(C.image(c_[:]), im) or not C.img_equal(C.image(d), im):
+                                raise AssertionError('chunk %d changed while it was asked a second time' % k_)
                     return parts
                 try:
                     parts = chunks()
@@ -327,6 +333,11 @@ def check_variant(ctx, tf, vname, raw_ts, ref, desc, eager0):
     if is_lazy:
         acc, runs, bad_off = {}, {}, False
         try:
+            # a first pass over the file-level stream that is given up after one chunk must not disturb the next pass
+            try:
+                next(tf.data_chunks())
+            except StopIteration:
+                pass
             stream_chunks = list(tf.data_chunks()) if (len(ref) % 2) else tf.data_chunks()     # half of the files: collected first, inspected afterwards
             ctx.count('path:file.data_chunks.collected' if isinstance(stream_chunks, list) else 'path:file.data_chunks.streamed')
             for chunk in stream_chunks:
